@@ -21,6 +21,11 @@ let parse_obj (idx : int) (w : string) : Objects.obj =
   | 'e' -> Objects.OCell ([n_of_int 1; n_of_int 1; n_of_int 1; n_of_int 1], [])
   | 'b' -> Objects.OBarrier (nat_of_int (int_of_string (String.sub w 1 (String.length w - 1))), Datatypes.O, [], [], [])
   | 'o' -> Objects.OOnce (Objects.OnNone, false, nat_of_int (idx + 1))
+  | 'z' -> Objects.OScope (Datatypes.O, Datatypes.O, false)
+  | 'k' ->
+    (match String.split_on_char ':' (String.sub w 1 (String.length w - 1)) with
+     | [init; d] -> Objects.OKey (n_of_string init, (if d = "-" then None else Some (nat_of_int (int_of_string d))))
+     | _ -> failwith "bad key spec")
   | 'a' -> Objects.OAtomic (n_of_string (String.sub w 1 (String.length w - 1)), [])
   | 'm' -> SyncOps.mutex_new
   | 'w' -> SyncOps.rwlock_new
@@ -97,6 +102,15 @@ let parse_op (w : string) : Prog.op =
              | [o; b] -> Prog.PCallOnce (nat_of_int (int_of_string o), nat_of_int (int_of_string b))
              | _ -> failwith "bad co")
   | "ic" -> Prog.PIsCompleted (num_after w 2)
+  | "lw" -> (match String.split_on_char '.' (String.sub w 2 (String.length w - 2)) with
+             | [k; v] -> Prog.PTlsWith (nat_of_int (int_of_string k), n_of_string v)
+             | _ -> failwith "bad lw")
+  | "id" -> Prog.PThreadId
+  | "zc" | "zs" -> (match String.split_on_char '.' (String.sub w 2 (String.length w - 2)) with
+             | [z; b] ->
+               let z = nat_of_int (int_of_string z) and b = nat_of_int (int_of_string b) in
+               if pre = "zc" then Prog.PScope (z, b) else Prog.PScopeSpawn (z, b)
+             | _ -> failwith "bad scope op")
   | "as" -> Prog.PASpawn (num_after w 2)
   | "aw" -> Prog.PAwait (num_after w 2)
   | "ab" -> Prog.PAbort (num_after w 2)
